@@ -24,6 +24,12 @@ type Peer struct {
 	mu       sync.Mutex
 	synced   bool
 	err      error
+
+	// wmu serializes the RPC id and request writes of concurrent calls: if the
+	// id of a later call overtakes the request body of an earlier one, a
+	// remote peer that applies back-pressure cannot read that body and the
+	// earlier call times out
+	wmu sync.Mutex
 }
 
 // String implements fmt.Stringer.
@@ -79,6 +85,19 @@ func (p *Peer) Close() error {
 	return nil
 }
 
+// writeCall writes the RPC id and the request as one unit with respect to
+// other calls on the same peer.
+func (p *Peer) writeCall(s *gateway.Stream, r gateway.Object) error {
+	p.wmu.Lock()
+	defer p.wmu.Unlock()
+	if err := s.WriteID(r); err != nil {
+		return fmt.Errorf("couldn't write RPC ID: %w", err)
+	} else if err := s.WriteRequest(r); err != nil {
+		return fmt.Errorf("couldn't write request: %w", err)
+	}
+	return nil
+}
+
 func (p *Peer) callRPC(r gateway.Object, timeout time.Duration) error {
 	s, err := p.t.DialStream()
 	if err != nil {
@@ -86,10 +105,8 @@ func (p *Peer) callRPC(r gateway.Object, timeout time.Duration) error {
 	}
 	defer s.Close()
 	s.SetDeadline(time.Now().Add(timeout))
-	if err := s.WriteID(r); err != nil {
-		return fmt.Errorf("couldn't write RPC ID: %w", err)
-	} else if err := s.WriteRequest(r); err != nil {
-		return fmt.Errorf("couldn't write request: %w", err)
+	if err := p.writeCall(s, r); err != nil {
+		return err
 	} else if err := s.ReadResponse(r); err != nil {
 		return fmt.Errorf("couldn't read response: %w", err)
 	}
@@ -104,10 +121,8 @@ func (p *Peer) callRPCContext(ctx context.Context, r gateway.Object, timeout tim
 	errChan := make(chan error)
 	s.SetDeadline(time.Now().Add(timeout))
 	go func() {
-		if err := s.WriteID(r); err != nil {
-			errChan <- fmt.Errorf("couldn't write RPC ID: %w", err)
-		} else if err := s.WriteRequest(r); err != nil {
-			errChan <- fmt.Errorf("couldn't write request: %w", err)
+		if err := p.writeCall(s, r); err != nil {
+			errChan <- err
 		} else if err := s.ReadResponse(r); err != nil {
 			errChan <- fmt.Errorf("couldn't read response: %w", err)
 		} else {
